@@ -1,7 +1,8 @@
 """Scripts for the "rcl" family (RearCodedListBuilder / RearCodedList).
 
 Inputs only: no expected result is computed here; Trace_RearCoded decides.
-Strings are valid UTF-8 without NUL, written as lists of byte values."""
+Stored strings are valid UTF-8 without NUL, written as lists of byte values
+(only the probes of the out-of-domain episodes hold NUL bytes)."""
 import random
 
 KS = [1, 2, 3, 4, 7, 8, 16, 1000]
@@ -389,6 +390,15 @@ def ood_episodes(seed, count):
         qs += [{"op": o} for o in ["iter", "lend", "into_iter", "into_lender", "len", "is_empty"]]
         for p in probes(r, strs, k, 12):
             qs.append({"op": "index_of", "s": b(p)})
+        # keys holding NUL bytes (a &str may; stored strings never do): the part before the first NUL is a stored
+        # string or a prefix of one, the NULs go on past the end of the block, of the data
+        if strs and k < 2 ** 31:
+            firsts = {strs[0], strs[-1], strs[((n - 1) // k) * k], r.choice(strs)}
+            for a in sorted(firsts, key=key):
+                for m in r.sample([1, 2, 7, 300, 5000, 70000], 2):
+                    qs.append({"op": r.choice(["index_of", "index_of", "contains"]), "s": b(a) + [0] * m})
+                qs.append({"op": "index_of", "s": b(a[:-1]) + [0] + b(a[-1:])})
+            qs.append({"op": "index_of", "s": [0]})
         r.shuffle(qs)
         # in-domain calls in between: a panic must leave the list usable
         for i in range(min(n, 3)):
